@@ -505,7 +505,7 @@ def run_harnesses(modname, tier, only=None, total_budget_s=None, procs=None, see
     hs = [h for h in mod.harnesses(tier) if only is None or h.id in only]
     procs = procs or int(os.environ.get("VERIF_PROCS", "16"))
     if total_budget_s is None:
-        default = getattr(mod, "BUDGET", {}).get(tier, 150 if tier == "quick" else 1100)
+        default = getattr(mod, "BUDGET", {}).get(tier, 150 if tier == "quick" else 900)
         total_budget_s = float(os.environ.get("VERIF_BUDGET_S", default))
     # Shards are processed in the order the harness lists them (smallest bounds first), the
     # harnesses one after the other.  Every shard runs until its path tree is exhausted,
